@@ -14,7 +14,18 @@ import (
 type recorder struct {
 	vars map[types.Object]bool
 	heap map[string]bool
+	refs map[string]map[string]bool // heap key -> reference terms written through ("*" = whole array)
 	all  bool
+}
+
+func (r *recorder) addRef(key, ref string) {
+	if r.refs == nil {
+		r.refs = map[string]map[string]bool{}
+	}
+	if r.refs[key] == nil {
+		r.refs[key] = map[string]bool{}
+	}
+	r.refs[key][ref] = true
 }
 
 type retState struct {
@@ -754,11 +765,62 @@ func (ex *Exec) discover(st *State, body func(*State)) *recorder {
 		for k := range r.heap {
 			o.heap[k] = true
 		}
+		for k, rs := range r.refs {
+			for ref := range rs {
+				o.addRef(k, ref)
+			}
+		}
 		if r.all {
 			o.all = true
 		}
 	}
 	return r
+}
+
+// loopEffects runs the body twice in discovery mode: once to learn which
+// variables and heap arrays it assigns, then again from a state where those are
+// already arbitrary, to learn through which references it writes. References that
+// do not depend on anything the loop changes are loop-invariant, and everything
+// outside them is framed when the loop head is havocked.
+func (ex *Exec) loopEffects(st *State, body func(*State)) *recorder {
+	r1 := ex.discover(st, body)
+	if r1.all {
+		return r1
+	}
+	probe := st.clone()
+	varying := map[string]bool{}
+	for o := range r1.vars {
+		v := ex.freshVal(o.Type(), o.Name()+"_p")
+		probe.vars[o] = v
+		v.leaves("", func(_ string, l *Val) { varying[l.S] = true })
+	}
+	for k := range r1.heap {
+		srt := ex.eng.heapSortOf(k)
+		ex.eng.regHeap(k, srt)
+		probe.heap[k] = ex.eng.smt.fresh("Hp_"+k, srt)
+		varying[probe.heap[k]] = true
+	}
+	r2 := ex.discover(probe, body)
+	for k := range r2.vars {
+		r1.vars[k] = true
+	}
+	for k := range r2.heap {
+		r1.heap[k] = true
+	}
+	if r2.all {
+		r1.all = true
+		return r1
+	}
+	r1.refs = map[string]map[string]bool{}
+	for k, rs := range r2.refs {
+		for ref := range rs {
+			if ref != "*" && ex.eng.smt.dependsOn(ref, varying) {
+				ref = "*"
+			}
+			r1.addRef(k, ref)
+		}
+	}
+	return r1
 }
 
 func (ex *Exec) havocRecorded(st *State, r *recorder) {
@@ -780,7 +842,31 @@ func (ex *Exec) havocRecorded(st *State, r *recorder) {
 	}
 	sort.Strings(keys)
 	for _, k := range keys {
-		ex.havocHeapKey(st, k, ex.eng.heapSortOf(k))
+		srt := ex.eng.heapSortOf(k)
+		old := st.heap[k]
+		if old == "" {
+			old = ex.eng.smt.named("H"+st.epoch+"_"+k, srt)
+		}
+		ex.havocHeapKey(st, k, srt)
+		refs := r.refs[k]
+		ok := len(refs) > 0
+		var conds []string
+		rl := make([]string, 0, len(refs))
+		for ref := range refs {
+			rl = append(rl, ref)
+		}
+		sort.Strings(rl)
+		for _, ref := range rl {
+			if ref == "*" {
+				ok = false
+				break
+			}
+			conds = append(conds, not(eq("r", ref)))
+		}
+		if ok {
+			nw := st.heap[k]
+			st.assume("(forall ((r Int)) (! (=> " + and(conds...) + " (= (select " + nw + " r) (select " + old + " r))) :pattern ((select " + nw + " r))))")
+		}
 	}
 }
 
@@ -877,7 +963,7 @@ func (ex *Exec) execFor(st *State, s *ast.ForStmt, label string) flow {
 	}
 	// discovery
 	savedOrd, savedSel := ex.loopOrd, ex.selectOrd
-	rec := ex.discover(st, func(s0 *State) { ex.inLoop++; iter(s0); ex.inLoop-- })
+	rec := ex.loopEffects(st, func(s0 *State) { ex.inLoop++; iter(s0); ex.inLoop-- })
 	ex.loopOrd, ex.selectOrd = savedOrd, savedSel
 	if ex.discovery == 0 {
 		ex.checkInvs(st, ls, "inv-init", nil)
@@ -1057,7 +1143,7 @@ func (ex *Exec) execRange(st *State, s *ast.RangeStmt, label string) flow {
 		return
 	}
 	savedOrd, savedSel := ex.loopOrd, ex.selectOrd
-	rec := ex.discover(st, func(s0 *State) { ex.inLoop++; iter(s0); ex.inLoop-- })
+	rec := ex.loopEffects(st, func(s0 *State) { ex.inLoop++; iter(s0); ex.inLoop-- })
 	ex.loopOrd, ex.selectOrd = savedOrd, savedSel
 	delete(rec.vars, hid)
 	delete(rec.vars, ex.hiddenKey(ord))
